@@ -157,10 +157,10 @@ def draw_level(data, sc, L, pos, bl, depth, cur=False):
             sc.entries += 1
             pos = draw_level(data, sc, g, pos, gbl, depth + 1, cur=cur)
     for d in L.data:
-        op = data.draw(st.sampled_from(["r", "l", "n", "w", "d", "p", "i"] + (["s"] if d.elem_prim == "char" else [])))
+        op = data.draw(st.sampled_from(["r", "l", "n", "w", "d", "p", "i", "v", "c", "1"] + (["s"] if d.elem_prim == "char" else [])))
         sc.ops.add("data_" + op)
         ln = data.draw(st.integers(0, 12))
-        if op == "n":
+        if op in ("n", "v", "c"):
             b = data.draw(st.integers(0, 255))
             payload = bytes([b]) * ln
         elif op == "s":
